@@ -155,3 +155,17 @@ func (s *Sess) Do(c *Ctx, o EOp) string {
 	c.W.Op(o.Line(), obs)
 	return obs
 }
+
+// StartCaseQuiet builds a session without recording anything (implementation-only checks).
+func StartCaseQuiet(ms *MSpec, o CaseOpts) *Sess {
+	s := &Sess{Customs: map[string]string{}}
+	s.A = mem.New()
+	e, err := casbin.NewEnforcer(ms.Build(), s.A)
+	if err != nil {
+		panic(err)
+	}
+	s.E = e
+	return s
+}
+
+func memLine(pt string, fields ...string) mem.Line { return mem.Line{PType: pt, Rule: fields} }
